@@ -12,7 +12,7 @@
     pkg/controller/batchrelease/control/bluegreenstyle/cloneset/control.go
         BuildController, Initialize, CalculateBatchContext, UpgradeBatch, Finalize, restored
     pkg/controller/batchrelease/control/bluegreenstyle/hpa/hpa.go
-        DisableHPA, RestoreHPA, findHPAForWorkload, findHPA, addSuffix, removeSuffix
+        DisableHPA, RestoreHPA, lookupHPAForWorkload, findHPA, scaleTargetRefOf, addSuffix, removeSuffix
     pkg/controller/batchrelease/control/util.go
         IsControlledByBatchRelease, ValidateReadyForBlueGreenRelease, GetOriginalSetting, InitOriginalSetting
     pkg/util/workloads_utils.go     DeploymentMaxUnavailable, resolveFenceposts
@@ -163,17 +163,20 @@ def canWrite (f : Fault) (n : Nat) : Bool :=
 
 /-! ### hpa.go -/
 
-/-- the match condition of `findHPA` -/
+/-- a lookup that can fail with an API error -/
+inductive Lk (α : Type) where
+  | val (a : α)
+  | err
+  deriving Repr
+
+/-- the match condition of `findHPA` (`scaleTargetRefOf` reads an absent `apiVersion` as `""`, which never equals
+    the workload's group/version) -/
 def hpaMatches (h : HPA) : Bool := h.av = .same && h.kindSame && h.name.isSome
 
-/-- `findHPA` over the items of one version: the number of suffixes of the first matching item.
-    `ref["apiVersion"].(string)` panics on an item without `apiVersion` that is reached before a match. -/
-def findIn : List HPA → Out (Option Nat)
-  | [] => .val none
-  | h :: t =>
-    if h.av = .absent then .panic
-    else if hpaMatches h then .val h.name
-    else findIn t
+/-- `findHPA` over the items of one version: the number of suffixes of the first matching item -/
+def findIn : List HPA → Option Nat
+  | [] => none
+  | h :: t => if hpaMatches h then h.name else findIn t
 
 /-- the merge patch of `scaleTargetRef.name` on the first matching item -/
 def setFirst (k : Nat) : List HPA → List HPA
@@ -184,18 +187,19 @@ inductive Ver where
   | v2 | v1
   deriving Repr, DecidableEq
 
-/-- one `findHPA(cli, object, version)`: a failed List is logged and treated as "no HPA" -/
-def findVer (l : List HPA) (listFails : Bool) : Out (Option Nat) :=
-  if listFails then .val none else findIn l
+/-- one `findHPA(cli, object, version)`: a failed List is an error (only "this API version is not served" would
+    count as "no HPA"; the fault model injects other errors) -/
+def findVer (l : List HPA) (listFails : Bool) : Lk (Option Nat) :=
+  if listFails then .err else .val (findIn l)
 
-/-- `findHPAForWorkload`: `v2` first, then `v1` -/
-def findHPA (w : World) (f : Fault) : Out (Option (Ver × Nat)) :=
+/-- `lookupHPAForWorkload`: `v2` first (an error there ends the lookup), then `v1` -/
+def findHPA (w : World) (f : Fault) : Lk (Option (Ver × Nat)) :=
   match findVer w.hpaV2 f.listV2 with
-  | .panic => .panic
+  | .err => .err
   | .val (some k) => .val (some (.v2, k))
   | .val none =>
     match findVer w.hpaV1 f.listV1 with
-    | .panic => .panic
+    | .err => .err
     | .val (some k) => .val (some (.v1, k))
     | .val none => .val none
 
@@ -205,24 +209,24 @@ def setHPA (w : World) (v : Ver) (k : Nat) : World :=
   | .v1 => { w with hpaV1 := setFirst k w.hpaV1 }
 
 /-- `DisableHPA`: world, success, writes done -/
-def disableHPA (w : World) (f : Fault) (n : Nat) : Out (World × Bool × Nat) :=
+def disableHPA (w : World) (f : Fault) (n : Nat) : World × Bool × Nat :=
   match findHPA w f with
-  | .panic => .panic
-  | .val none => .val (w, true, n)
+  | .err => (w, false, n)
+  | .val none => (w, true, n)
   | .val (some (v, k)) =>
-    if k ≠ 0 then .val (w, true, n)                 -- already carries the suffix
-    else if canWrite f n then .val (setHPA w v 1, true, n + 1)
-    else .val (w, false, n)
+    if k ≠ 0 then (w, true, n)                 -- already carries the suffix
+    else if canWrite f n then (setHPA w v 1, true, n + 1)
+    else (w, false, n)
 
 /-- `RestoreHPA` (`removeSuffix` strips every copy of the suffix) -/
-def restoreHPA (w : World) (f : Fault) (n : Nat) : Out (World × Bool × Nat) :=
+def restoreHPA (w : World) (f : Fault) (n : Nat) : World × Bool × Nat :=
   match findHPA w f with
-  | .panic => .panic
-  | .val none => .val (w, true, n)
+  | .err => (w, false, n)
+  | .val none => (w, true, n)
   | .val (some (v, k)) =>
-    if k = 0 then .val (w, true, n)
-    else if canWrite f n then .val (setHPA w v 0, true, n + 1)
-    else .val (w, false, n)
+    if k = 0 then (w, true, n)
+    else if canWrite f n then (setHPA w v 0, true, n + 1)
+    else (w, false, n)
 
 /-! ### control/util.go -/
 
@@ -241,6 +245,10 @@ def getSetting : Saved → Option Setting
 def ruSurge (ru : Option RU) : Option IntOrPct := ru.bind (·.maxSurge)
 def ruUnavailable (ru : Option RU) : Option IntOrPct := ru.bind (·.maxUnavailable)
 
+/-- `nothingSaved` of `InitOriginalSetting`: `minReadySeconds` has no "unset" value, it is taken from the object only
+    when neither `maxSurge` nor `maxUnavailable` has been saved -/
+def nothingSaved (s : Setting) : Bool := s.maxSurge.isNone && s.maxUnavailable.isNone
+
 /-- `InitOriginalSetting` -/
 def initSetting (kind : Kind) (s : Setting) (wl : Workload) : Setting :=
   match kind with
@@ -254,7 +262,7 @@ def initSetting (kind : Kind) (s : Setting) (wl : Workload) : Setting :=
       progressDeadlineSeconds := match s.progressDeadlineSeconds with
         | some v => some v
         | none => some (wl.progressDeadlineSeconds.getD 600),
-      minReadySeconds := if s.minReadySeconds = 0 then wl.minReadySeconds else s.minReadySeconds }
+      minReadySeconds := if s.minReadySeconds = 0 ∧ nothingSaved s then wl.minReadySeconds else s.minReadySeconds }
   | .cloneSet =>
     { maxSurge := match s.maxSurge with
         | some v => some v
@@ -263,7 +271,7 @@ def initSetting (kind : Kind) (s : Setting) (wl : Workload) : Setting :=
         | some v => some v
         | none => some ((ruUnavailable wl.ru).getD (pct 20)),
       progressDeadlineSeconds := s.progressDeadlineSeconds,
-      minReadySeconds := if s.minReadySeconds = 0 then wl.minReadySeconds else s.minReadySeconds }
+      minReadySeconds := if s.minReadySeconds = 0 ∧ nothingSaved s then wl.minReadySeconds else s.minReadySeconds }
 
 /-- `ValidateReadyForBlueGreenRelease` returns nil -/
 def validate (kind : Kind) (wl : Workload) : Bool :=
@@ -298,18 +306,23 @@ def upgradePatch (kind : Kind) (e : IntOrPct) (wl : Workload) : Workload :=
     { wl with partition := none,
               ru := some { maxSurge := some e, maxUnavailable := ruUnavailable wl.ru } }
 
-/-- the restoring patch of `Finalize` -/
+/-- the restoring patch of `Finalize`.  The Deployment control keeps the saved-settings annotation (it is removed by a
+    second patch once the wait has passed and the HPA is restored); the CloneSet control removes it here. -/
 def finalizePatch (kind : Kind) (s : Setting) (wl : Workload) : Workload :=
   match kind with
   | .deployment =>
     { wl with paused := false, minReadySeconds := s.minReadySeconds,
               progressDeadlineSeconds := s.progressDeadlineSeconds,
               ru := some { maxSurge := s.maxSurge, maxUnavailable := s.maxUnavailable },
-              saved := .none, ctl := .none, stableLabel := false }
+              ctl := .none, stableLabel := false }
   | .cloneSet =>
     { wl with minReadySeconds := s.minReadySeconds,
               ru := some { maxSurge := s.maxSurge, maxUnavailable := s.maxUnavailable },
               saved := .none, ctl := .none }
+
+/-- the last patch of the Deployment `Finalize`: "all done: only now forget the original setting" -/
+def forget (w : World) : World :=
+  { w with wl := w.wl.map (fun wl => { wl with saved := .none }) }
 
 /-! ### deployment/control.go -/
 
@@ -384,9 +397,8 @@ def cpInitialize (kind : Kind) (w : World) (br : BR) (f : Fault) : Out CallOut :
     | some R =>
       if controlled br wl then .val ⟨w, .ok, 0, some R⟩ else
       match disableHPA w f 0 with
-      | .panic => .panic
-      | .val (w1, false, n) => .val ⟨w1, .err, n, none⟩
-      | .val (w1, true, n) =>
+      | (w1, false, n) => .val ⟨w1, .err, n, none⟩
+      | (w1, true, n) =>
         match stableRSStep kind w1 f n with
         | (w2, false, n2) => .val ⟨w2, .err, n2, none⟩
         | (w2, true, n2) =>
@@ -420,11 +432,10 @@ def cpUpgradeBatch (kind : Kind) (w : World) (br : BR) (f : Fault) : Out CallOut
         else .val ⟨w, .err, 0, none⟩
 
 /-- the tail of both `Finalize`s: `RestoreHPA` -/
-def finishHPA (w : World) (f : Fault) (n : Nat) : Out CallOut :=
+def finishHPA (w : World) (f : Fault) (n : Nat) : CallOut :=
   match restoreHPA w f n with
-  | .panic => .panic
-  | .val (w', true, n') => .val ⟨w', .ok, n', none⟩
-  | .val (w', false, n') => .val ⟨w', .err, n', none⟩
+  | (w', true, n') => ⟨w', .ok, n', none⟩
+  | (w', false, n') => ⟨w', .err, n', none⟩
 
 /-- the wait of `Finalize`: the Deployment control evaluates `waitAllUpdatedAndReady` on `d` (the object the patch
     response was decoded into, or still empty); the CloneSet control compares the status of the object it read
@@ -439,7 +450,17 @@ def finishWait (kind : Kind) (wl d : Workload) (w1 : World) (f : Fault) (n : Nat
   match waitStep kind wl d with
   | .panic => .panic
   | .val false => .val ⟨w1, .retry, n, none⟩
-  | .val true => finishHPA w1 f n
+  | .val true => .val (finishHPA w1 f n)
+
+/-- after a restoring patch: the Deployment control, once `RestoreHPA` has succeeded, removes the saved-settings
+    annotation with a second patch; the CloneSet control is done -/
+def finishForget (kind : Kind) (f : Fault) (o : CallOut) : CallOut :=
+  match kind with
+  | .cloneSet => o
+  | .deployment =>
+    if o.res = .ok then
+      if canWrite f o.writes then ⟨forget o.world, .ok, o.writes + 1, none⟩ else ⟨o.world, .err, o.writes, none⟩
+    else o
 
 /-- `realBatchControlPlane.Finalize` -/
 def cpFinalize (kind : Kind) (w : World) (br : BR) (f : Fault) : Out CallOut :=
@@ -460,7 +481,9 @@ def cpFinalize (kind : Kind) (w : World) (br : BR) (f : Fault) : Out CallOut :=
         | some s =>
           if ¬ canWrite f 0 then .val ⟨w, .err, 0, none⟩ else
           -- the Deployment's `d` now holds the patched object as the API server returned it
-          finishWait kind wl (finalizePatch kind s wl) { w with wl := some (finalizePatch kind s wl) } f 1
+          match finishWait kind wl (finalizePatch kind s wl) { w with wl := some (finalizePatch kind s wl) } f 1 with
+          | .panic => .panic
+          | .val o => .val (finishForget kind f o)
 
 inductive Op where
   | init | upgrade | fin
